@@ -85,6 +85,11 @@ fn publish_of(c: &Case, i: usize) -> (s5::Publish5, Vec<u8>) {
     (pb, wire::payload(i as u32 + 1, p.payload))
 }
 
+/// v5: the PUBREL for odd packet ids carries the (valid) reason code 0x92; its PUBCOMP is due all the same
+fn pubrel(role: Role, pid: u16) -> P5 {
+    if role.is_v5() && pid % 2 == 1 { P5::PubRel(s5::Ack5 { pid, reason: 0x92, ..Default::default() }) } else { P5::PubRel(s5::Ack5 { pid, ..Default::default() }) }
+}
+
 fn fail(c: &Case, rule: &str, detail: String) -> Failure {
     Failure::new(rule, format!("C03/{}/{rule}", c.role.name()), detail)
 }
@@ -248,7 +253,7 @@ pub async fn run_case(c: Case) -> Result<CaseInfo, Failure> {
                     eut.peer().pump();
                     st[i].rel_sent_at = Some(eut.peer().wire_len());
                     early_rel = true;
-                    eut.peer_send(&P5::PubRel(s5::Ack5 { pid: i as u16 + 1, ..Default::default() }), &[]);
+                    eut.peer_send(&pubrel(c.role, i as u16 + 1), &[]);
                     eut.settle().await;
                     check_no_early_ack(&eut, &c, &seq_of)?;
                 }
@@ -265,7 +270,7 @@ pub async fn run_case(c: Case) -> Result<CaseInfo, Failure> {
                     if r.reason < 0x80 && step >= seen + usize::from(c.pubs[i].rel_delay % 3) {
                         eut.peer().pump();
                         st[i].rel_sent_at = Some(eut.peer().wire_len());
-                        eut.peer_send(&P5::PubRel(s5::Ack5 { pid, ..Default::default() }), &[]);
+                        eut.peer_send(&pubrel(c.role, pid), &[]);
                         eut.settle().await;
                     }
                 }
@@ -284,7 +289,7 @@ pub async fn run_case(c: Case) -> Result<CaseInfo, Failure> {
                 let (_, rec, _) = acks_for(&pk, pid);
                 if rec.first().is_some_and(|r| r.reason < 0x80) {
                     st[i].rel_sent_at = Some(eut.peer().wire_len());
-                    eut.peer_send(&P5::PubRel(s5::Ack5 { pid, ..Default::default() }), &[]);
+                    eut.peer_send(&pubrel(c.role, pid), &[]);
                 }
             }
         }
